@@ -319,6 +319,23 @@ Definition judge_C01_pair (i o : jmsg) : nat :=
                 match jm_rest o with [] => true | _ => false end) then 5
   else 0.
 Definition single_message (i : jmsg) : bool := match trim_left (jm_rest i) with [] => true | _ => false end.
+(* the same without the "nothing follows the body" clause, for messages read out of a stream *)
+Definition judge_C01_pair_nr (i o : jmsg) : nat :=
+  if negb (beq (jm_start i) (jm_start o)) then 2
+  else if negb (hs_eqb (kept i) (kept o)) then 3
+  else if negb (beq (jm_body i) (jm_body o)) then 4
+  else if negb (Nat.eqb (jm_cl_count o) 1 &&
+                match jm_cl_value o with Some z => Z.eqb z (Z.of_nat (List.length (jm_body o))) | None => false end) then 5
+  else 0.
+(* the messages of a byte stream, one after the other *)
+Fixpoint j_read_all (fuel : nat) (b : bytes) : list jmsg :=
+  match fuel with
+  | O => []
+  | S f => match j_read b with
+           | Some m => m :: (match trim_left (jm_rest m) with [] => [] | _ => j_read_all f (jm_rest m) end)
+           | None => []
+           end
+  end.
 Fixpoint first_nonzero (l : list nat) : nat :=
   match l with [] => O | O :: r => first_nonzero r | n :: _ => n end.
 Definition judge_C01_event (pc : proxy_case) (st : jstate) (ev : event) (outs : list (bytes * bytes)) (closed : list nat) : nat :=
@@ -327,10 +344,27 @@ Definition judge_C01_event (pc : proxy_case) (st : jstate) (ev : event) (outs : 
   | Some i =>
       match j_read (ji_data i) with
       | Some m =>
-          if (in_domain_C01 m && (negb (ji_tcp i) || single_message m))%bool then
-            first_nonzero (map (fun o => match j_read (snd o) with Some om => judge_C01_pair m om | None => 1%nat end)
-                               (msgs_of outs))
-          else O
+          if (negb (ji_tcp i) || single_message m)%bool then
+            if in_domain_C01 m then
+              first_nonzero (map (fun o => match j_read (snd o) with Some om => judge_C01_pair m om | None => 1%nat end)
+                                 (msgs_of outs))
+            else O
+          else
+            (* several messages pipelined in one TCP chunk: every relayed message is matched with
+               the received message of the same Call-ID (what left on one connection during the
+               event is read as a sequence of messages too) *)
+            let ins := j_read_all 64 (ji_data i) in
+            let os := flat_map (fun o => j_read_all 64 (snd o)) (msgs_of outs) in
+            first_nonzero (map (fun om =>
+              let cands := filter (fun im => match j_first is_callid (jm_headers im), j_first is_callid (jm_headers om) with
+                                             | Some a, Some b => beq a b | _, _ => false end) ins in
+              match cands with
+              | [] => O
+              | _ => if forallb in_domain_C01 cands then
+                       (if existsb (fun im => Nat.eqb (judge_C01_pair_nr im om) 0) cands then O
+                        else match cands with im :: _ => judge_C01_pair_nr im om | [] => O end)
+                     else O
+              end) os)
       | None => O
       end
   | None => O
